@@ -62,6 +62,11 @@ CHECKS["C10"] = ("exploration",
   "20,000 (300,000) generated sequences; every case ends with a save and reopen. Two oracles: getters vs model (immediately, before close, after reopen) and independent strict parse of the raw stream (alignment, bounds, typed values, contiguity, exact section size).",
   "Trusted: the independent property-set parser and the code-page oracle. Strings with unrepresentable characters are only checked for no panic / well-formed stream / other properties intact.",
   "DESIGN.md section 4, C10")
+CHECKS["C11"] = ("exploration",
+  "model-based stateful testing of the stream interface: proptest-generated sequences over adversarial name classes and content sizes, model keyed by the container's name-comparison class of the independently packed name; raw root entries cross-checked through the container after each save",
+  "40,000 (400,000) generated sequences plus a write/reopen/read/remove cycle for each of ~80 fixed names (limit lengths 61/62/63, packing ranges, table marker, path separators, NUL, case variants, internal stream names).",
+  "Trusted: the independent name packing in fmt.rs (fixtures from the format notes) and cfb's documented comparison rule. has_stream is asserted only for well-formed names.",
+  "DESIGN.md section 4, C11")
 NOT_YET = {}
 
 def main():
